@@ -457,9 +457,14 @@ impl Run {
         }
       }
     }
-    for (v, path) in &violations {
+    for (i, (v, path)) in violations.iter().enumerate() {
+      if i >= 8 {
+        println!("  ... and {} more violations (see evidence / replays)", violations.len() - i);
+        break;
+      }
       println!("VIOLATION property={} replay={}", self.id, path);
-      println!("  check={} sig={} detail={}", v.check, Value::Object(v.sig.clone()), v.detail);
+      let d: String = v.detail.chars().take(600).collect();
+      println!("  check={} sig={} detail={}", v.check, Value::Object(v.sig.clone()), d);
     }
     println!(
       "property={} tier={} seed={} evaluations={} distinct_nontrivial={} violations={} wall_s={:.1}",
